@@ -27,7 +27,7 @@ def shapes_for(tier, k=None):
 
     if tier == "quick":
         return shapes.QUICK + [shapes.BY_NAME[n] for n in shapes.EXTRA_QUICK]
-    return shapes.THOROUGH + [s for s in shapes.EXTRA if s.name != "dep_source_chain"]
+    return shapes.THOROUGH + [s for s in shapes.EXTRA if not s.name.startswith("dep_source_chain")]
 
 
 def max_ops(shape):
@@ -76,14 +76,14 @@ def ordering_lemma():
     import shapes
 
     return [xhrun.Cond("harness_cache", "c09_order", {"XH_SHAPE": json.dumps(shapes.BY_NAME[nm].to_json())}, timeout=300,
-                       label=f"ordering_{nm}") for nm in ("dep_source", "dep_source_2pred", "dep_source_chain")]
+                       label=f"ordering_{nm}") for nm in ("dep_source", "dep_source_2pred", "dep_source_chain", "dep_source_chain_rev")]
 
 
 def conds_c09(tier):
     import shapes
 
     names = (["chain_sss", "chain_src_s_u_s", "join_s_s_into_s", "fork_unstored_mid", "dep_edge", "dep_source", "dep_source_2pred", "out_unstored",
-              "lit_mid", "reg_literal", "dep_source_chain", "lit_chain"]
+              "lit_mid", "reg_literal", "dep_source_chain", "dep_source_chain_rev", "lit_chain"]
              if tier == "quick" else [s.name for s in shapes.THOROUGH + shapes.EXTRA])
     cs = [xhrun.Cond("harness_cache", "c09_order", {"XH_SHAPE": json.dumps(shapes.BY_NAME[nm].to_json())}, timeout=300,
                      label=f"c09_order_{nm}") for nm in names]
@@ -116,7 +116,7 @@ def conds_c08(tier):
     # changes only with the new value -- exactly what the cut model above assumes of a store)
     from . import fs_checks
 
-    cs += [c for c in fs_checks.conds_c11(tier) if c.label.endswith("_die")]
+    cs += [c for c in fs_checks.conds_c11(tier) if c.label.endswith("_die") or "two" in c.label]  # two stores in one directory: no shared staging file
     return cs, info
 
 
